@@ -548,6 +548,13 @@ fn count_unreadable(a: &Arrangement, l: &Laid, text: &str, depth: usize) -> usiz
 }
 
 fn run_arrangements(ctx: &RunCtx, prefixes: &'static [&'static str], name: &str, n: u64) {
+    // cases do file I/O: keep shrinking short
+    let prev = ctx.shrink_iters.swap(2_000, std::sync::atomic::Ordering::Relaxed);
+    run_arrangements_inner(ctx, prefixes, name, n);
+    ctx.shrink_iters.store(prev, std::sync::atomic::Ordering::Relaxed);
+}
+
+fn run_arrangements_inner(ctx: &RunCtx, prefixes: &'static [&'static str], name: &str, n: u64) {
     ctx.random(name, n, 200, |src| {
         let a = gen_arrangement(src);
         let mut rep = CaseReport::default();
